@@ -564,6 +564,26 @@ pub type CN<'b> = Arc<ConstructNode<'b>>;
 /// order (a topological order of the reachable nodes; `None` = ascending index).  `wits[i]`, when
 /// given, is the value attached to witness node `i`.  Any constructor error aborts: the caller must
 /// then discard the context.
+/// constructors that failed with a type error and then succeeded when called again with the same
+/// arguments (silent acceptance on retry); drained by the C04 check
+pub static RETRY_ACCEPTED: std::sync::Mutex<Vec<String>> = std::sync::Mutex::new(Vec::new());
+
+/// a failing constructor is called a second time: it must fail again
+fn twice<'b>(i: usize, f: &dyn Fn() -> Result<CN<'b>, types::Error>) -> Result<CN<'b>, types::Error> {
+    match f() {
+        Ok(n) => Ok(n),
+        Err(e) => {
+            let shown = e.to_string();
+            if let Ok(n2) = f() {
+                if let Ok(mut v) = RETRY_ACCEPTED.lock() {
+                    v.push(format!("node {i}: the constructor failed with `{}` and succeeded on the second call, with arrow {}", shown.chars().take(120).collect::<String>(), n2.arrow()));
+                }
+            }
+            Err(e)
+        }
+    }
+}
+
 pub fn build<'b>(
     ctx: &types::Context<'b>,
     plan: &Plan,
@@ -582,12 +602,12 @@ pub fn build<'b>(
             PNode::InjR(c) => CN::injr(g(*c)),
             PNode::Take(c) => CN::take(g(*c)),
             PNode::Drop(c) => CN::drop_(g(*c)),
-            PNode::Comp(a, b) => CN::comp(g(*a), g(*b))?,
-            PNode::Case(a, b) => CN::case(g(*a), g(*b))?,
-            PNode::Pair(a, b) => CN::pair(g(*a), g(*b))?,
-            PNode::AssertL(a, h) => CN::assertl(g(*a), Cmr::from_byte_array(*h))?,
-            PNode::AssertR(h, b) => CN::assertr(Cmr::from_byte_array(*h), g(*b))?,
-            PNode::Disconnect(a, b) => CN::disconnect(g(*a), &b.map(|b| g(b).clone()))?,
+            PNode::Comp(a, b) => twice(i, &|| CN::comp(g(*a), g(*b)))?,
+            PNode::Case(a, b) => twice(i, &|| CN::case(g(*a), g(*b)))?,
+            PNode::Pair(a, b) => twice(i, &|| CN::pair(g(*a), g(*b)))?,
+            PNode::AssertL(a, h) => twice(i, &|| CN::assertl(g(*a), Cmr::from_byte_array(*h)))?,
+            PNode::AssertR(h, b) => twice(i, &|| CN::assertr(Cmr::from_byte_array(*h), g(*b)))?,
+            PNode::Disconnect(a, b) => twice(i, &|| CN::disconnect(g(*a), &b.map(|b| g(b).clone())))?,
             PNode::Witness => CN::witness(ctx, wits.and_then(|w| w.get(&i)).map(|v| v.shallow_clone())),
             PNode::Fail(e) => CN::fail(ctx, FailEntropy::from_byte_array(*e)),
             PNode::Word(n, bits) => CN::const_word(ctx, word_of_bits(*n, bits)),
@@ -716,16 +736,43 @@ pub struct PlanGen<'a> {
     pub cfg: GenCfg,
     pub nodes: Vec<PNode>,
     pool: Vec<(T, T, usize)>,
+    /// hidden roots of the assertions whose kept branch is being generated
+    pending_hidden: Vec<[u8; 32]>,
 }
 
 impl<'a> PlanGen<'a> {
     pub fn new(r: &'a mut Rng, cfg: GenCfg) -> Self {
-        PlanGen { r, cfg, nodes: vec![], pool: vec![] }
+        PlanGen { r, cfg, nodes: vec![], pool: vec![], pending_hidden: vec![] }
     }
 
     fn push(&mut self, n: PNode) -> usize {
         self.nodes.push(n);
         self.nodes.len() - 1
+    }
+
+    /// the root of a hidden branch: usually fresh, sometimes one used before in this plan (the same
+    /// hidden root under several assertions, nested or side by side, is encoded once)
+    fn hidden_root(&mut self) -> [u8; 32] {
+        let used: Vec<[u8; 32]> = self
+            .nodes
+            .iter()
+            .filter_map(|n| match n {
+                PNode::AssertL(_, h) | PNode::AssertR(h, _) => Some(*h),
+                _ => None,
+            })
+            .collect();
+        // chosen before the kept branch is generated: an earlier assertion is a sibling; nesting comes
+        // from `pending_hidden`, the roots of the assertions currently being generated
+        let mut pool = used;
+        pool.extend(self.pending_hidden.iter().copied());
+        if !pool.is_empty() && self.r.below(3) == 0 {
+            return pool[self.r.below(pool.len() as u64) as usize];
+        }
+        let mut h = [0u8; 32];
+        for b in h.iter_mut() {
+            *b = self.r.next() as u8;
+        }
+        h
     }
 
     /// `pin_T : T → T`, typeable only at exactly `T`
@@ -765,6 +812,13 @@ impl<'a> PlanGen<'a> {
         } else {
             w
         }
+    }
+
+    /// a witness node whose target is forced to `t`, whatever its size
+    pub fn witness_pinned(&mut self, t: &T) -> usize {
+        let w = self.push(PNode::Witness);
+        let p = self.pin(t);
+        self.push(PNode::Comp(w, p))
     }
 
     pub fn gen(&mut self, a: &T, b: &T, d: usize) -> usize {
@@ -890,17 +944,17 @@ impl<'a> PlanGen<'a> {
                     let t = self.gen(&T::prod(y, z), b, d - 1);
                     self.push(PNode::Case(s, t))
                 } else {
-                    let mut h = [0u8; 32];
-                    for b in h.iter_mut() {
-                        *b = self.r.next() as u8;
-                    }
-                    if self.r.bool() {
+                    let h = self.hidden_root();
+                    self.pending_hidden.push(h);
+                    let n = if self.r.bool() {
                         let s = self.gen(&T::prod(x, z), b, d - 1);
-                        self.push(PNode::AssertL(s, h))
+                        PNode::AssertL(s, h)
                     } else {
                         let t = self.gen(&T::prod(y, z), b, d - 1);
-                        self.push(PNode::AssertR(h, t))
-                    }
+                        PNode::AssertR(h, t)
+                    };
+                    self.pending_hidden.pop();
+                    self.push(n)
                 }
             }
             8 => {
@@ -959,17 +1013,17 @@ impl<'a> PlanGen<'a> {
                 let sel = self.witness_of(&T::sum(x.clone(), y.clone()));
                 let id = self.push(PNode::Iden);
                 let p = self.push(PNode::Pair(sel, id));
-                let mut h = [0u8; 32];
-                for b in h.iter_mut() {
-                    *b = self.r.next() as u8;
-                }
-                let cs = if self.r.bool() {
+                let h = self.hidden_root();
+                self.pending_hidden.push(h);
+                let n = if self.r.bool() {
                     let s1 = self.gen(&T::prod(x, a.clone()), b, d - 1);
-                    self.push(PNode::AssertL(s1, h))
+                    PNode::AssertL(s1, h)
                 } else {
                     let t1 = self.gen(&T::prod(y, a.clone()), b, d - 1);
-                    self.push(PNode::AssertR(h, t1))
+                    PNode::AssertR(h, t1)
                 };
+                self.pending_hidden.pop();
+                let cs = self.push(n);
                 self.push(PNode::Comp(p, cs))
             }
             15 => {
@@ -1062,7 +1116,7 @@ pub fn layout_plan(r: &mut Rng, via_witness: bool, wrap: usize) -> Plan {
     let n = 2 + r.below(4);
     let t = tree(r, n, &leaf);
     let mut g = PlanGen::new(r, GenCfg { pin_witness: true, ..GenCfg::default() });
-    let x = if via_witness { g.witness_of(&t) } else { g.pin(&t) };
+    let x = if via_witness { g.witness_pinned(&t) } else { g.pin(&t) };
     let d = 1 + g.r.below(3) as usize;
     let p = g.rearrangement(&t, d);
     let mut body = g.push(PNode::Comp(x, p));
@@ -1071,6 +1125,50 @@ pub fn layout_plan(r: &mut Rng, via_witness: bool, wrap: usize) -> Plan {
         body = if k % 2 == 0 || via_witness { g.push(PNode::Comp(body, i)) } else { g.push(PNode::Comp(i, body)) };
     }
     let _ = body;
+    g.finish()
+}
+
+/// `comp X (pair (case A B) R)` (or `pair R (case A B)`) over `(L + R') × Z` with arms of different
+/// widths: the case moves the read cursor past tag and padding and must put it back exactly, because
+/// a sibling reads the same frame afterwards.  `A`, `B` project out of `Z`; the input takes both sides.
+pub fn case_read_plan(r: &mut Rng, via_witness: bool) -> Plan {
+    let leaf = |r: &mut Rng| match r.below(8) {
+        0 => T::One,
+        1 => T::word(0),
+        2 => T::word(1),
+        3 => T::word(2),
+        4 => T::word(3),
+        5 => T::sum(T::One, T::word(1)),
+        6 => T::prod(T::word(0), T::word(1)),
+        _ => T::sum(T::word(2), T::One),
+    };
+    let l = leaf(r);
+    let mut rr = leaf(r);
+    if rr.bw() == l.bw() && r.below(4) != 0 {
+        rr = T::prod(rr, T::word(1));
+    }
+    let z = T::prod(leaf(r), T::prod(leaf(r), leaf(r)));
+    let t = T::prod(T::sum(l, rr), z.clone());
+    let mut g = PlanGen::new(r, GenCfg { pin_witness: true, ..GenCfg::default() });
+    let x = if via_witness { g.witness_pinned(&t) } else { g.pin(&t) };
+    // both arms: the same projection out of Z, reached through `drop`
+    let pa = g.projection(&z);
+    let a = g.push(PNode::Drop(pa));
+    // the other arm needs the same target type: copy the expression node by node
+    fn dup(g: &mut PlanGen, i: usize) -> usize {
+        let m = match g.nodes[i].clone() {
+            PNode::Take(c) => PNode::Take(dup(g, c)),
+            PNode::Drop(c) => PNode::Drop(dup(g, c)),
+            other => other,
+        };
+        g.push(m)
+    }
+    let b = dup(&mut g, a);
+    let cs = g.push(PNode::Case(a, b));
+    let pr = g.projection(&z);
+    let rd = g.push(PNode::Drop(pr));
+    let p = if g.r.bool() { g.push(PNode::Pair(cs, rd)) } else { g.push(PNode::Pair(rd, cs)) };
+    g.push(PNode::Comp(x, p));
     g.finish()
 }
 
@@ -1149,7 +1247,7 @@ pub fn layout_verdict_plan(r: &mut Rng) -> Plan {
     let mut leaves = vec![];
     word_leaves(&t, &mut vec![], &mut leaves);
     let mut g = PlanGen::new(r, GenCfg { pin_witness: true, ..GenCfg::default() });
-    let x = g.witness_of(&t);
+    let x = g.witness_pinned(&t);
     let a = g.word_from_chunks(&leaves, 3);
     let b = if g.r.bool() {
         // the same chunks again: equal unless the machine moves them wrongly
